@@ -23,6 +23,7 @@ THOROUGH_CONFIGS = ["nodefault"]
 
 
 def run(ck, ctx):
+    C.adapter_census(ck, ctx, "record-discipline", ("work::", "hash::", "graph::"))
     D.decision(ck, ctx)
     D.files_missing(ck, ctx)
     D.ensure_and_stat(ck, ctx)
